@@ -55,6 +55,12 @@ class Model:
     def __init__(self, ctx, cfg):
         self.ctx, self.cfg = ctx, cfg
         sc = SC()
+        if cfg.get("surplus"):
+            k = cfg["surplus"]
+            cfg = dict(cfg, gs_positions=[list(p) for p in cfg["gs_positions"]] + [[77.0, -31.0]] * k, gs_altitudes=list(cfg["gs_altitudes"]) + [15e3] * k,
+                       wfs_wavelengths=list(cfg["wfs_wavelengths"]) + [1.0e-6] * k, subap_diameters=list(cfg["subap_diameters"]) + [0.123] * k,
+                       layer_altitudes=list(cfg["layer_altitudes"]) + [3333.0] * k, layer_r0s=list(cfg["layer_r0s"]) + [0.07] * k, layer_L0s=list(cfg["layer_L0s"]) + [11.0] * k, surplus=0)
+            self.cfg = cfg
         self.args = dict(masks=[np.array(m) for m in cfg["pupil_masks"]], subd=list(cfg["subap_diameters"]), alts=list(cfg["gs_altitudes"]),
                          pos=[list(p) for p in cfg["gs_positions"]], wl=list(cfg["wfs_wavelengths"]), lalt=list(cfg["layer_altitudes"]),
                          r0=list(cfg["layer_r0s"]), L0=list(cfg["layer_L0s"]))
